@@ -314,7 +314,10 @@ func (c13) Run(t TestingT, scn json.RawMessage, tape *Tape) *Outcome {
 	o.Steps = len(log)
 	o.Trace = log
 	if len(log) == 0 {
-		return &Outcome{Infra: "generated mutation executed nothing: " + MarshalResult(res) + " query: " + sc.Query}
+		// the generated documents are valid and always execute (the generator's
+		// own dry run did): serving another document's plan is one way to get here
+		o.Violate("C13/did-not-execute", "the mutation executed nothing (entry %s): %s\n query: %s", sc.Entry, MarshalResult(res), sc.Query)
+		return o
 	}
 	rank := map[string]int{}
 	for i, k := range sc.Keys {
